@@ -37,6 +37,7 @@ fn sign_kb(alg: &str, typ: Option<&str>, claims: &Value, other_key: bool) -> Str
 pub const DEFECTS: &[&str] = &[
     "none", "none_policy_aud_unset", "other_key", "other_alg", "typ_missing", "typ_jwt", "hash_other_string", "hash_jwt_only",
     "hash_whole_string", "hash_other_alg", "hash_missing", "hash_not_string", "aud_unexpected", "aud_missing", "aud_array_ok",
+    "aud_array_expected_last", "aud_array_empty", "aud_array_others_only", "aud_array_mixed_types",
     "no_policy", "drop_disclosure", "add_disclosure", "dup_disclosure", "reorder_disclosures", "replace_disclosure", "strip_kb",
     "kb_on_unbound", "cnf_not_rsa", "cnf_e_missing", "cnf_n_not_string", "cnf_n_not_base64", "cnf_null",
     // two conditions together: the verifier was given no key-binding policy AND ...
@@ -158,6 +159,11 @@ pub fn generate_kinds(kinds: &[&str], n: usize, seed: u64, em: &mut Emitter) {
                 kbc.as_object_mut().unwrap().remove("aud");
             }
             "aud_array_ok" => kbc["aud"] = json!(["x", aud]),
+            // an audience array that names the expected audience anywhere carries it; one that names nobody, or only others, does not
+            "aud_array_expected_last" => kbc["aud"] = json!(["https://other.example", "x", aud]),
+            "aud_array_empty" => kbc["aud"] = json!([]),
+            "aud_array_others_only" => kbc["aud"] = json!(["https://other.example", "x"]),
+            "aud_array_mixed_types" => kbc["aud"] = json!([5, null, aud]),
             _ => {}
         }
         let kb = sign_kb(kb_alg, typ, &kbc, other_key);
@@ -228,7 +234,9 @@ pub fn generate_kinds(kinds: &[&str], n: usize, seed: u64, em: &mut Emitter) {
         for a in indep::ALGS {
             h.as_array_mut().unwrap().push(json!([a, dk, indep::hash(a, &dk)]));
         }
-        let accept = matches!(defect, "none" | "none_policy_aud_unset" | "aud_array_ok" | "cnf_null" | "cnf_alg_differs_kb_as_policy");
+        // whether a policy without audience would make the audience cases acceptable is decided by aud_ok above
+        let accept = matches!(defect, "none" | "none_policy_aud_unset" | "aud_array_ok" | "aud_array_expected_last" | "aud_array_mixed_types" | "cnf_null" | "cnf_alg_differs_kb_as_policy")
+            || (matches!(defect, "aud_array_empty" | "aud_array_others_only") && policy_aud.is_none());
         let mut e = expectation(&tok, &clear, &presented, if accept { "accept" } else { "reject" });
         if defect == "cnf_null" {
             // no key binding: the KB-JWT must not be there at all; with the KB attached the token is rejected
